@@ -10,6 +10,7 @@ package main
 
 import (
 	"fmt"
+	"os"
 	"io"
 	"strconv"
 	"strings"
@@ -28,6 +29,7 @@ type labJ struct {
 
 type schedCase struct {
 	Labels []labJ `json:"labels"`
+	Msg    bool   `json:"msg,omitempty"` // data packets travel in <message/> stanzas (no acknowledgement)
 }
 
 const (
@@ -41,7 +43,7 @@ type readRes struct {
 	err  error
 }
 
-func coqLabel(l labJ) string {
+func coqLabel(l labJ, msg bool) string {
 	switch l.L {
 	case "start":
 		return "LStart " + hx.CoqNat(l.N)
@@ -50,12 +52,30 @@ func coqLabel(l labJ) string {
 	case "resume":
 		return "LResume"
 	case "deliver":
-		return "LDeliver " + hx.CoqBytes(hx.UnHex(l.D))
+		return "LDeliver " + hx.CoqBool(!msg) + " " + hx.CoqBytes(hx.UnHex(l.D))
 	}
 	return "LClose"
 }
 
+var schedDur [2]time.Duration
+var schedSlow int
+var syncDur time.Duration
+var syncN int
+
 func (x *runner) runSched(c schedCase, origin string) bool {
+	t0 := time.Now()
+	defer func() {
+		d := time.Since(t0)
+		i := 0
+		if c.Msg {
+			i = 1
+		}
+		schedDur[i] += d
+		if d > 300*time.Millisecond && schedSlow < 5 && os.Getenv("C15_TIMING") != "" {
+			schedSlow++
+			fmt.Fprintf(os.Stderr, "slow sched %v msg=%v %s\n", d, c.Msg, labelsText(c.Labels))
+		}
+	}()
 	r := x.getRig()
 	if r == nil {
 		return false
@@ -65,7 +85,7 @@ func (x *runner) runSched(c schedCase, origin string) bool {
 	defer g.UnblockAll()
 	sid := x.sid()
 	r.peer.setAuto(ackAll)
-	conn, err := openLocal(r, sid, 64, true)
+	conn, err := openLocal(r, sid, 64, !c.Msg)
 	if err != nil || conn == nil {
 		x.res.Fail("C15/open/accepted-but-failed", fmt.Sprintf("OpenIQ fails although the peer accepted: %v", err), kase{Kind: "sched", Sched: &c})
 		x.dropRig()
@@ -93,7 +113,7 @@ func (x *runner) runSched(c schedCase, origin string) bool {
 	var done []labJ
 	var obs []string
 	k := func() kase {
-		return kase{Kind: "sched", Sched: &schedCase{Labels: append(append([]labJ(nil), done...), labels...)}}
+		return kase{Kind: "sched", Sched: &schedCase{Labels: append(append([]labJ(nil), done...), labels...), Msg: c.Msg}}
 	}
 	fail := func(key, what string) { x.res.Fail(key, what, k()) }
 	abort := func(key, what string) bool {
@@ -250,7 +270,7 @@ func (x *runner) runSched(c schedCase, origin string) bool {
 			if probe {
 				g.Block(hkPayload)
 			}
-			r.peer.send(dataStanza(true, id, sid, strconv.Itoa(seq), b64(d)))
+			r.peer.send(dataStanza(!c.Msg, id, sid, strconv.Itoa(seq), b64(d)))
 			if probe {
 				if g.WaitArrived(hkPayload, p0+1, watchdog) {
 					time.Sleep(3 * time.Millisecond)
@@ -260,7 +280,25 @@ func (x *runner) runSched(c schedCase, origin string) bool {
 				}
 				g.Unblock(hkPayload)
 			}
-			w, ok := r.peer.replyTo(id, from, watchdog)
+			var w wstanza
+			var ok bool
+			if c.Msg {
+				// no acknowledgement on this carrier: the packet has been handled
+				// once a later request has been answered; a refusal is a message
+				// of type error with the packet's id
+				ts := time.Now()
+				ok = r.sync()
+				syncDur += time.Since(ts)
+				syncN++
+				w = wstanza{Type: "result"}
+				for _, l := range r.peer.snapshotFrom(from) {
+					if l.Name == "message" && l.ID == id && l.Type == "error" {
+						w = l
+					}
+				}
+			} else {
+				w, ok = r.peer.replyTo(id, from, watchdog)
+			}
 			if msg, alive := r.alive(); !alive {
 				key, what := "C15/payload/serve-aborted", "the serve loop ends on a valid data packet: "+msg
 				if strings.HasPrefix(msg, "panic") && closed {
@@ -269,10 +307,13 @@ func (x *runner) runSched(c schedCase, origin string) bool {
 				return abort(key, what)
 			}
 			if !ok {
-				return abort("C15/payload/unanswered", "a data iq gets no reply")
+				return abort("C15/payload/unanswered", "a data packet is not handled (no reply to it or to the request that follows it)")
 			}
 			if w.Type == "result" {
 				o = "SDid BAck"
+				if c.Msg {
+					o = "SDid BTaken"
+				}
 				if closed {
 					fail("C15/payload/item-not-found:not-refused", "a data packet for a closed stream is accepted")
 				}
@@ -283,7 +324,7 @@ func (x *runner) runSched(c schedCase, origin string) bool {
 					if awaitWoken(time.Second) {
 						pos = atWoken
 					} else {
-						fail("C15/read/lost-wakeup:reader-in-receive", "a reader blocked in its wait is not woken by an acknowledged data packet")
+						fail("C15/read/lost-wakeup:reader-in-receive", fmt.Sprintf("a reader blocked in its wait is not woken by an accepted data packet (carrier: %s); the stream stays open and the bytes stay in the buffer", map[bool]string{true: "message", false: "iq"}[c.Msg]))
 					}
 				} else {
 					tok = true
@@ -348,10 +389,11 @@ func (x *runner) runSched(c schedCase, origin string) bool {
 	healthy := r.sync()
 	var lt []string
 	for _, l := range done {
-		lt = append(lt, coqLabel(l))
+		lt = append(lt, coqLabel(l, c.Msg))
 	}
-	kk := kase{Kind: "sched", Sched: &schedCase{Labels: done}}
-	x.res.Count("l|"+labelsText(done), reached, "sched/origin/"+origin, fmt.Sprintf("sched/len/%s", bucket(len(done))))
+	kk := kase{Kind: "sched", Sched: &schedCase{Labels: done, Msg: c.Msg}}
+	x.res.Count(fmt.Sprintf("l|%v|%s", c.Msg, labelsText(done)), reached, "sched/origin/"+origin, fmt.Sprintf("sched/len/%s", bucket(len(done))),
+		"sched/carrier/"+map[bool]string{true: "message", false: "iq"}[c.Msg])
 	x.res.Sample(kk)
 	x.lc.Add("mklcase ["+strings.Join(lt, "; ")+"] ["+strings.Join(obs, "; ")+"]", kk)
 	return healthy
